@@ -13,8 +13,8 @@ def mc(name, files, module, quick, thorough=None, **kw):
     return s
 
 
-def mbt(name, files, module, harness, quick, thorough=None, qopts=None, topts=None):
-    s = {"name": name, "kind": "mbt", "files": files, "module": module, "harness": harness,
+def mbt(name, files, module, harness, quick, thorough=None, qopts=None, topts=None, require=None):
+    s = {"name": name, "kind": "mbt", "files": files, "module": module, "harness": harness, "require": require or [],
          "quick": {**dict(cfg=quick, walks=200, depth=8), **(qopts or {})}}
     if thorough:
         s["thorough"] = {**dict(cfg=thorough, walks=4000, depth=12, timeout=3000, hworkers=16, heap="10g"), **(topts or {})}
@@ -22,23 +22,30 @@ def mbt(name, files, module, harness, quick, thorough=None, qopts=None, topts=No
 
 
 MINTER_MC = mc("minter-mc", MINTER, "MC_Minter.tla", "mc/MC_Minter_quick.cfg", "mc/MC_Minter_thorough.cfg")
-MINTER_SCHED = mbt("minter-sched", MINTER, "MBT_Minter.tla", "minter", "mc/MBT_Minter_sched_quick.cfg", "mc/MBT_Minter_sched_thorough.cfg")
-MINTER_UPD = mbt("minter-upd", MINTER, "MBT_Minter.tla", "minter", "mc/MBT_Minter_upd_quick.cfg", "mc/MBT_Minter_upd_thorough.cfg")
+MINTER_SCHED = mbt("minter-sched", MINTER, "MBT_Minter.tla", "minter", "mc/MBT_Minter_sched_quick.cfg", "mc/MBT_Minter_sched_thorough.cfg",
+                   require=["act.block", "act.export", "act.configure"])
+MINTER_UPD = mbt("minter-upd", MINTER, "MBT_Minter.tla", "minter", "mc/MBT_Minter_upd_quick.cfg", "mc/MBT_Minter_upd_thorough.cfg",
+                 require=["act.block", "act.export", "outcome.update.ok", "outcome.update.rejected"])
 
 DIST = ["DecArith.tla", "Distributor.tla", "mc/MC_Distributor.tla", "mc/MBT_Distributor.tla"]
 DIST_MC = mc("dist-mc", DIST, "MC_Distributor.tla", "mc/MC_Distributor_quick.cfg", "mc/MC_Distributor_thorough.cfg")
 DIST_MC_FAULTS = mc("dist-mc-faults", DIST, "MC_Distributor.tla", "mc/MC_Distributor_faults_quick.cfg")
-DIST_CUR = mbt("dist-curated", DIST, "MBT_Distributor.tla", "distributor", "mc/MBT_Distributor_quick.cfg", "mc/MBT_Distributor_quick.cfg")
+DIST_CUR = mbt("dist-curated", DIST, "MBT_Distributor.tla", "distributor", "mc/MBT_Distributor_quick.cfg", "mc/MBT_Distributor_quick.cfg",
+               require=["act.block", "act.deposit", "act.export", "block.faulty"])
 DIST_MULTI = mbt("dist-multidenom", DIST, "MBT_Distributor.tla", "distributor", "mc/MBT_Distributor_multi_quick.cfg", "mc/MBT_Distributor_multi_quick.cfg")
-DIST_UPD = mbt("dist-upd", DIST, "MBT_Distributor.tla", "distributor", "mc/MBT_Distributor_upd_quick.cfg", "mc/MBT_Distributor_upd_quick.cfg")
+DIST_UPD = mbt("dist-upd", DIST, "MBT_Distributor.tla", "distributor", "mc/MBT_Distributor_upd_quick.cfg", "mc/MBT_Distributor_upd_quick.cfg",
+               require=["act.block"] + ["outcome.update.%s.%s" % (k, o) for k in ("params", "sub", "burn", "share") for o in ("ok", "rejected")])
 DIST_SINGLE = {"name": "dist-single", "kind": "mbt", "files": DIST, "module": "MBT_Distributor.tla", "harness": "distributor",
                "thorough": dict(cfg="mc/MBT_Distributor_single_thorough.cfg", walks=2000, depth=10, timeout=3000, hworkers=16, heap="10g", workers=16)}
 
 VEST = ["DecArith.tla", "VestingMath.tla", "Vesting.tla", "mc/MC_Vesting.tla", "mc/MBT_Vesting.tla"]
 VEST_MC = mc("vesting-mc", VEST, "MC_Vesting.tla", "mc/MC_Vesting_quick.cfg", "mc/MC_Vesting_thorough.cfg")
-VEST_POOLS = mbt("vesting-pools", VEST, "MBT_Vesting.tla", "vesting", "mc/MBT_Vesting_pools_quick.cfg", "mc/MBT_Vesting_pools_thorough.cfg")
-VEST_ACCTS = mbt("vesting-accounts", VEST, "MBT_Vesting.tla", "vesting", "mc/MBT_Vesting_accounts_quick.cfg", "mc/MBT_Vesting_accounts_thorough.cfg")
-VEST_TWO = mbt("vesting-two-denoms", VEST, "MBT_Vesting.tla", "vesting", "mc/MBT_Vesting_two_quick.cfg", "mc/MBT_Vesting_two_quick.cfg")
+VEST_POOLS = mbt("vesting-pools", VEST, "MBT_Vesting.tla", "vesting", "mc/MBT_Vesting_pools_quick.cfg", "mc/MBT_Vesting_pools_thorough.cfg",
+                 require=["outcome.%s.%s" % (m, o) for m in ("createpool", "withdraw", "send", "updatedenom") for o in ("ok", "rejected")] + ["act.advance", "act.export", "act.delegate"])
+VEST_ACCTS = mbt("vesting-accounts", VEST, "MBT_Vesting.tla", "vesting", "mc/MBT_Vesting_accounts_quick.cfg", "mc/MBT_Vesting_accounts_thorough.cfg",
+                 require=["outcome.%s.%s" % (m, o) for m in ("createacc", "split", "move", "movedenoms", "updatedenom", "send") for o in ("ok", "rejected")] + ["act.advance", "act.export", "act.delegate"])
+VEST_TWO = mbt("vesting-two-denoms", VEST, "MBT_Vesting.tla", "vesting", "mc/MBT_Vesting_two_quick.cfg", "mc/MBT_Vesting_two_quick.cfg",
+               require=["outcome.%s.%s" % (m, o) for m in ("createacc", "split", "movedenoms", "updatedenom") for o in ("ok", "rejected")] + ["outcome.move.ok"])
 
 SIG = ["Signature.tla", "mc/MBT_Signature.tla"]
 SIG_MBT = mbt("signature", SIG, "MBT_Signature.tla", "signature", "mc/MBT_Signature_quick.cfg", "mc/MBT_Signature_thorough.cfg")
@@ -61,6 +68,20 @@ SPLIT_NUM = {"name": "vesting-numeric", "kind": "num", "files": SPLITF, "module"
              "quick": dict(cfg="mc/MC_Split_quick.cfg", steps=800, apalache_steps=60, workers=4),
              "thorough": dict(cfg="mc/MC_Split_thorough.cfg", steps=6000, apalache_steps=1200, apalache_timeout=2400, workers=8, timeout=1800)}
 
+MINTER_TRACE = {"name": "minter-trace", "kind": "trace", "files": ["DecArith.tla", "Minter.tla", "trace/Trace_Minter.tla"], "module": "trace/Trace_Minter.tla",
+                "cfg": "trace/Trace_Minter.cfg", "recorder": "trace-minter", "corrupt_event": "block", "corrupt_field": "total",
+                "default_owner": "C02", "event_owner": {"block": "C02", "update": "C13", "configure": "C13"},
+                "invariant_owner": {"ScheduleConformance": "C02", "LinearExact": "C02", "CarryOK": "C02", "NonNegBlock": "C02", "NeverHalts": "C10",
+                                    "CurrentPeriodExists": "C13", "StoredParamsValid": "C13", "TypeOK": "C02"},
+                "quick": dict(traces=300), "thorough": dict(traces=4000, timeout=3000)}
+
+DIST_TRACE = {"name": "dist-trace", "kind": "trace", "files": ["DecArith.tla", "Distributor.tla", "trace/Trace_Distributor.tla"], "module": "trace/Trace_Distributor.tla",
+              "cfg": "trace/Trace_Distributor.cfg", "recorder": "trace-distributor", "corrupt_event": "deposit", "corrupt_field": None,
+              "default_owner": "C04", "event_owner": {"block": "C04", "panic": "C10", "configure": "C13", "deposit": "C04"},
+              "invariant_owner": {"NonNegative": "C03", "BooksMatch": "C03", "Conservation": "C03", "ShareExact": "C04", "PaidUp": "C04", "NeverHalts": "C10",
+                                  "StoredParamsValid": "C13", "EventsAddUp": "C18"},
+              "quick": dict(traces=150), "thorough": dict(traces=3000, timeout=3000)}
+
 TRUST = ["TLC 1.8.0 and the TLA+ CommunityModules Json module", "the Go harness projection functions (harness/*)",
          "cosmos-sdk bank/auth keepers as the ground truth for balances and accounts"]
 
@@ -73,7 +94,7 @@ CHAIN_ASSUME = TRUST + ["full-app BeginBlocker / EndBlocker are run on the deliv
                         "export / import goes through the module manager's ExportGenesis (build-tag hook VerifModuleManager), ModuleBasics.ValidateGenesis and InitChain of a fresh application"]
 
 PROPS = {
-    "C01": {"level": "model_checking", "stages": [CHAIN_MBT, VEST_POOLS, MINTER_SCHED], "assumptions": CHAIN_ASSUME},
+    "C01": {"level": "model_checking", "stages": [CHAIN_MBT, DIST_MULTI, DIST_CUR, VEST_POOLS, MINTER_SCHED], "assumptions": CHAIN_ASSUME},
     "C10": {"level": "model_checking", "stages": [CHAIN_MBT, MINTER_UPD, DIST_CUR, DIST_UPD], "assumptions": CHAIN_ASSUME},
     "C11": {"level": "model_checking", "stages": [CHAIN_REPL], "assumptions": CHAIN_ASSUME + ["Tendermint and IAVL are trusted; replicas are application instances fed the same ABCI calls"]},
     "C12": {"level": "model_checking", "stages": [CHAIN_MBT, MINTER_SCHED, DIST_CUR, VEST_ACCTS, SIG_MBT], "assumptions": CHAIN_ASSUME},
@@ -95,12 +116,12 @@ PROPS = {
             "assumptions": TRUST + ["cryptography is abstract in the model; the harness concretises keys with generated ECDSA P-256 / RSA-2048 self-signed certificates, so soundness is relative to Go's crypto/x509",
                                     "the cfesignature Msg service is not registered with the application's router; the harness calls keeper.NewMsgServerImpl directly"]},
     "C17": {"level": "model_checking", "stages": [VEST_MC, VEST_ACCTS, VEST_POOLS], "assumptions": VEST_ASSUME},
-    "C03": {"level": "model_checking", "stages": [DIST_MC, DIST_CUR, DIST_MULTI, DIST_SINGLE], "assumptions": DIST_ASSUME},
-    "C04": {"level": "model_checking", "stages": [DIST_MC, DIST_CUR, DIST_MULTI, DIST_SINGLE], "assumptions": DIST_ASSUME},
+    "C03": {"level": "model_checking", "stages": [DIST_MC, DIST_CUR, DIST_MULTI, DIST_SINGLE, DIST_TRACE], "assumptions": DIST_ASSUME},
+    "C04": {"level": "model_checking", "stages": [DIST_MC, DIST_CUR, DIST_MULTI, DIST_SINGLE, DIST_TRACE], "assumptions": DIST_ASSUME},
     "C14": {"level": "model_checking", "stages": [DIST_MC_FAULTS, DIST_CUR], "assumptions": DIST_ASSUME},
     "C02": {
         "level": "model_checking",
-        "stages": [MINTER_MC, MINTER_SCHED],
+        "stages": [MINTER_MC, MINTER_SCHED, MINTER_TRACE],
         "assumptions": TRUST + ["block times are multiples of the model tick (year/8); real-magnitude arithmetic is covered by the numeric stage only"],
     },
 }
